@@ -129,18 +129,25 @@ def token_classes(all_exprs):
             vals[k] |= v[k]
     words = {x for x in vals["keyword"] | vals["value"] if x[:1].isalpha()}
     marks = {x for x in vals["symbol"] | vals["operator"] | vals["value"] if x and not x[:1].isalpha()} | {",", "<"}
+    # every standard Pygments token type that survives filtering (all but whitespace and comments), sub-kinds included:
+    # predicates test kinds with `in`, so a sub-kind such as Keyword.Type or Name.Function is a token class of its own
+    kinds = [t for t in T.STANDARD_TYPES if t is not T.Token and t not in T.Comment and t not in T.Whitespace and t is not T.Text.Whitespace]
     classes = []
-    for w in sorted(words | {"kwother"}):
-        classes.append((T.Keyword, w))
-    for w in sorted(words | {"zz"}):
-        classes.append((T.Name, w))
-    for m in sorted(marks):
-        classes.append((T.Punctuation, m))
-        classes.append((T.Operator, m))
-    for s in sorted(words | marks | {"zz"}):
-        classes.append((T.Literal.String, s))
-    classes.append((T.Literal.Number, "1"))
+    for kind in sorted(kinds, key=str):
+        if kind in T.Keyword or kind in T.Name:
+            pool = words | {"kwother", "zz"}
+        elif kind in T.Punctuation or kind in T.Operator:
+            pool = marks | ({"in", "new"} if kind in T.Operator else set())
+        elif kind in T.Literal.Number:
+            pool = {"1"}
+        else:
+            pool = words | marks | {"zz"}
+        for v in sorted(pool):
+            classes.append((kind, v))
     return classes
+
+
+MAX_CONFIGS = 20000  # the built-in patterns have a few hundred; a harness error (exit 2), never a verdict, beyond this
 
 
 def _mk(cls, k=0):
@@ -192,7 +199,7 @@ def _config(p, index):
         states.append(_pstate(pred))
         d = getattr(pred, "depth", None)
         if d is not None:
-            depths.append(min(d, 3))
+            depths.append(max(min(d, 3), -1))  # same abstraction as _pstate: 3 stands for '3 or more', -1 for 'negative'
     return (index[id(p.state)], tuple(depths), tuple(states))
 
 
@@ -249,6 +256,8 @@ def explore(lname, k, role, expr, classes):
                 continue
             ncfg = _config(p, index)
             if ncfg not in seen:
+                if len(seen) >= MAX_CONFIGS:
+                    raise RuntimeError(f"{lname} {role} #{k}: more than {MAX_CONFIGS} abstract configurations - the abstraction no longer bounds this pattern's state space")
                 seen[ncfg] = witness + [cls]
                 dq.append(witness + [cls])
     yield ("configs", len(seen), None)
